@@ -140,7 +140,7 @@ def _sp_count(I, a, k):
                 tot = tot + z3.If(I.ops.truthy(I.call(fn, [x], {})), 1, 0)
         else:
             c = I.ops.truthy(I.call(fn, [s.mapv], {}))
-            tot = tot + I.ops.count(s.lid, s.pidx, s.hi, s.g, z3.And(s.cond, c))
+            tot = tot + I.ops.count_seg(s, z3.And(s.cond, c))
     return __import__("pyvc.values", fromlist=["SInt"]).SInt(z3.simplify(tot))
 
 
@@ -152,7 +152,7 @@ def _sp_forall(I, a, k):
             parts += [I.ops.truthy(I.call(fn, [x], {})) for x in s[1]]
         else:
             c = I.ops.truthy(I.call(fn, [s.mapv], {}))
-            parts.append(I.ops.count(s.lid, s.pidx, s.hi, s.g, z3.And(s.cond, z3.Not(c))) == 0)
+            parts.append(I.ops.count_seg(s, z3.And(s.cond, z3.Not(c))) == 0)
     return SBool(z3.And(*parts) if parts else TRUE)
 
 
@@ -164,7 +164,7 @@ def _sp_exists(I, a, k):
             parts += [I.ops.truthy(I.call(fn, [x], {})) for x in s[1]]
         else:
             c = I.ops.truthy(I.call(fn, [s.mapv], {}))
-            parts.append(I.ops.count(s.lid, s.pidx, s.hi, s.g, z3.And(s.cond, c)) > 0)
+            parts.append(I.ops.count_seg(s, z3.And(s.cond, c)) > 0)
     return SBool(z3.Or(*parts) if parts else FALSE)
 
 
